@@ -66,7 +66,11 @@ def run(M, rep, tier, only=None):
     R4 = rep.rule("C04.R4", "delete_all matches by entity_id below its receiver", floor=1, technique="guard dependency in raw mode")
     R5 = rep.rule("C04.R5", "wrong-kind refusal precedes deletion", floor=4, technique="event order on all paths")
 
-    for cn, tree in (("Container", None), ("SectionContainer", "_find_sections"), ("SourceContainer", "_find_sources")):
+    from .common import tree_finders
+    tf = tree_finders(ctx)
+    tname = lambda k: tf[k].node.name if tf.get(k) is not None else "_find_" + k
+    for cn, tree, pub in (("Container", None, None), ("SectionContainer", tname("sections"), "find_sections"),
+                          ("SourceContainer", tname("sources"), "find_sources")):
         f = ctx.member(cn, "__delitem__")
         key = cn + ".__delitem__"
         if f is None:
@@ -91,7 +95,7 @@ def run(M, rep, tier, only=None):
             if ".id" not in txt and "entity_id" not in txt:
                 bad = (p, "the id list %s does not derive from the deleted item's id" % txt[:80])
                 break
-            if tree and tree.lstrip("_") not in called_names(eid.t):
+            if tree and not ({tree.lstrip("_"), pub} & called_names(eid.t)):
                 bad = (p, "the id list does not include the item's subtree (%s)" % tree)
                 break
             if cn == "SourceContainer" and txt.count("id") < 2:
